@@ -2,7 +2,7 @@
 """tools/wavestats.py — per-wave detection statistics of the seeded changes (seeded/*/meta.json), written between the
 <!-- WAVE-STATS --> markers of DESIGN.md."""
 import json, glob, re, collections
-waves = collections.OrderedDict([(1, (1, 3)), (2, (4, 6)), (3, (7, 9)), (4, (10, 12)), (5, (13, 15))])
+waves = collections.OrderedDict([(1, (1, 3)), (2, (4, 6)), (3, (7, 9)), (4, (10, 12)), (5, (13, 15)), (6, (16, 17))])
 res = {}
 for f in sorted(glob.glob('/verif/seeded/*-m*/meta.json')):
     m = json.load(open(f)); p = m['property']; n = int(re.search(r'-m(\d+)/', f).group(1))
